@@ -189,14 +189,15 @@ Qed.
 Theorem C19_variadic_slice_in_range q t : exists rest, type_string q (TSlice t) = "[]" ++ rest.
 Proof. exists (type_string q t). reflexivity. Qed.
 
-(* ---- the whole run: every outcome is output, a diagnostic, or one of the two refuted
-   families (divergence of resolveImportConflict, map-order dependence of the renames);
-   the generator core has no crash site left and no other unbounded loop ---- *)
+(* ---- the whole run: every outcome is output, a diagnostic, or the one refuted family that is
+   left (divergence of resolveImportConflict); since the repair of D16 no outcome depends on
+   Go's map iteration order; the generator core has no crash site left and no other unbounded
+   loop ---- *)
 Definition settled {A} (x : outcome A) : Prop :=
   match x with
   | Crash _ => False
   | OutOfFuel site => site = "resolveImportConflict"
-  | OrderDependent site => site = "resolveImportVarConflicts"
+  | OrderDependent _ => False
   | Ok _ | Err _ => True
   end.
 
@@ -216,7 +217,6 @@ Proof. destruct (C19_numbering_total sc s) as (n & sc' & E). rewrite E. exact I.
 Lemma add_var_settled cfg r sc n t suffix : settled (add_var cfg r sc n t suffix).
 Proof.
   unfold add_var. apply settled_bind; [apply populate_settled|]. intros [r1 imps] _.
-  destruct (_ && _); [reflexivity|].
   apply settled_bind.
   - destruct (_ || _); [apply resolve_var_name_conflict_settled|exact I].
   - intros [n2 sc2] _. exact I.
